@@ -459,7 +459,7 @@ func (o *Outcome) AssertExactImports() error {
 		}
 	}
 	for p := range o.Model.Anon {
-		if seen[p] == 0 && !o.Model.IsLocal(p) {
+		if seen[p] == 0 {
 			return o.fail("anonymous import %q is missing", p)
 		}
 	}
@@ -544,7 +544,7 @@ func (o *Outcome) AssertLocalDot() error {
 		return err
 	}
 	for _, imp := range o.Rep.Imports {
-		if o.Model.IsLocal(imp.Path) && o.Model.HasLocal {
+		if o.Model.IsLocal(imp.Path) && o.Model.HasLocal && !(o.Model.Anon[imp.Path] && imp.Name == "_") {
 			return o.fail("the file's own package path %q is imported", imp.Path)
 		}
 	}
